@@ -13,6 +13,10 @@ C12 — the routes by which witness data reaches a redemption program, as functi
                  which the real code takes from an execution) re-inference on the constraints that
                  remain and `Value::prune` of every remaining witness value to its re-inferred type;
                  the three `.expect(..)` of `prune_with_tracker` are the outcome `panic`.
+                 `leak = true` is the code as it is: `prune_with_tracker` converts *every* node of
+                 the unpruned DAG into one fresh inference context before a branch is hidden, so
+                 the constraints of removed nodes stay (they matter when a removed branch shares
+                 a node with the remaining program); `leak = false` is principal re-inference.
 
 The invariant is `WitnessTyped arrows r`.  Proofs are in `RoutesProps.lean`.
 -/
@@ -133,11 +137,12 @@ structure Cut where
 /-- the typing constraints of node `i` after the cut.  Fresh variables are numbered as in the
 uncut program (the numbering is immaterial for the solution; keeping it makes the constraint set
 literally a subset). -/
-def cutNodeEqns (jt : JetTypes) (c : Cut) (i : Nat) (nd : Node) (f : Nat) : Option (List Eqn × Nat) :=
+def cutNodeEqns (jt : JetTypes) (leak : Bool) (c : Cut) (i : Nat) (nd : Node) (f : Nat) :
+    Option (List Eqn × Nat) :=
   match nodeEqns jt i nd f with
   | none => none
   | some (es, f') =>
-    if c.keep i then
+    if c.keep i || leak then
       match nd, c.side i with
       | .case a _, some false =>
         some ([(src a, .prod (.var f) (.var (f+2))), (tgt i, tgt a),
@@ -148,15 +153,15 @@ def cutNodeEqns (jt : JetTypes) (c : Cut) (i : Nat) (nd : Node) (f : Nat) : Opti
       | _, _ => some (es, f')
     else some ([], f')
 
-def cutGo (jt : JetTypes) (c : Cut) : Nat → List Node → Nat → List Eqn → Option (List Eqn)
+def cutGo (jt : JetTypes) (leak : Bool) (c : Cut) : Nat → List Node → Nat → List Eqn → Option (List Eqn)
   | _, [], _, acc => some acc
   | i, nd :: rest, f, acc =>
-    match cutNodeEqns jt c i nd f with
+    match cutNodeEqns jt leak c i nd f with
     | none => none
-    | some (es, f') => cutGo jt c (i + 1) rest f' (acc ++ es)
+    | some (es, f') => cutGo jt leak c (i + 1) rest f' (acc ++ es)
 
-def cutConstraints (jt : JetTypes) (p : Plan) (program : Bool) (c : Cut) : Option (List Eqn) :=
-  match cutGo jt c 0 p.toList (2 * p.size) [] with
+def cutConstraints (jt : JetTypes) (leak : Bool) (p : Plan) (program : Bool) (c : Cut) : Option (List Eqn) :=
+  match cutGo jt leak c 0 p.toList (2 * p.size) [] with
   | none => none
   | some es =>
     let r := p.size - 1
@@ -164,8 +169,8 @@ def cutConstraints (jt : JetTypes) (p : Plan) (program : Bool) (c : Cut) : Optio
 
 /-- type inference of the pruned program (`ConstructData::from_inner` in a fresh context +
 `finalize`) -/
-def inferCut (jt : JetTypes) (p : Plan) (program : Bool) (c : Cut) : InferRes :=
-  match cutConstraints jt p program c with
+def inferCut (jt : JetTypes) (leak : Bool) (p : Plan) (program : Bool) (c : Cut) : InferRes :=
+  match cutConstraints jt leak p program c with
   | none => .badPlan
   | some es =>
     match Inf.unify unifyFuel es [] with
@@ -188,10 +193,11 @@ def pruneValues (ar' : Arrows) (keep : Nat → Bool) : Witnesses → Option Witn
       | _, _ => none
     else pruneValues ar' keep rest
 
-def routeP (jt : JetTypes) (p : Plan) (program : Bool) (cand : Nat → Option Val) (c : Cut) : Outcome :=
+def routeP (jt : JetTypes) (leak : Bool) (p : Plan) (program : Bool) (cand : Nat → Option Val)
+    (c : Cut) : Outcome :=
   match routeU jt p program cand with
   | .ok _ r =>
-    match inferCut jt p program c with
+    match inferCut jt leak p program c with
     | .ok ar' =>
       match pruneValues ar' c.keep r with
       | some r' => .ok ar' r'
@@ -199,6 +205,21 @@ def routeP (jt : JetTypes) (p : Plan) (program : Bool) (cand : Nat → Option Va
     | .fuel => .fuel
     | _ => .panic
   | o => o
+
+/-- the code as it is: the constraints of removed branches leak (see the header) -/
+def codeLeaks : Bool := true
+
+/-- does the witness stream of a pruned program decode, at the *principal* types of the pruned
+program (what `RedeemNode::decode` infers), to the values the program carries? -/
+def ownSerialisationDecodes (jt : JetTypes) (p : Plan) (program : Bool) (c : Cut) : Outcome → Bool
+  | .ok _ r' =>
+    match inferCut jt false p program c with
+    | .ok arP =>
+      match readAll arP ((witnessIdx p).filter c.keep) (serialise r') with
+      | some (r'', rest) => closeOk rest && r'' == r'
+      | none => false
+    | _ => false
+  | _ => true
 
 /-! ### the cut a set of executed branches determines (driver glue; the theorems hold for any cut) -/
 
